@@ -1,30 +1,104 @@
-BOUNDS = 'wip'
-OUTSIDE = 'wip'
-ASSUMPTIONS = []
+BOUNDS = ('type list {gray8, rgb8 interleaved, rgb8 planar} (any_image_view<gray8_view_t, rgb8_view_t, rgb8_planar_view_t>, any_image of the three image types over the checking allocator; '
+          'thorough also gray8_image_t/rgb8_image_t/rgb8_planar_image_t with std::allocator); held alternative (ordered pair source/destination for binary algorithms, overload form '
+          'variant-variant / variant-view / view-variant) concrete per query; dimensions concrete per query (quick 3x2 plus 1x1, 0x2, 1x3; thorough also 2x3, 2x0), views over exact-size heap buffers with one padding byte per row; '
+          'pixel contents, probed pixel (x,y), probed destination byte (plane, index), sub-image rectangle, subsampling steps (1..3), channel index, fill value symbolic; '
+          'equal_pixels / any_image ==: second operand = first except one channel of one pixel at a concrete position changed by a symbolic amount; '
+          'user colour converter = first channel xor constant; resample_pixels: nearest neighbour with a concrete integer translation; '
+          'expected result of every algorithm = the same GIL algorithm on the concrete views applied to an identical destination buffer (incompatible pair: bad_cast and the untouched buffer)')
+OUTSIDE = ('longer or other type lists (in particular lists whose transformed view types coincide, apart from nth_channel_view where gray8 and planar rgb8 map to the same type); sizes above 3x3; '
+           'mismatched source/destination dimensions (precondition of the algorithms); bilinear resampling and non-integer / rotating matrices on variants (C17); move construction/assignment of any_image (not in the property); '
+           'any_image with allocations above 4 KiB; recreate with a non-zero alignment for std::allocator images (blocks from operator new have no modelled integer address; checked with the checking allocator instead); default rgb->gray luminance through color_converted_view / copy_and_convert_pixels on variants is checked in the thorough tier only (30-40 s per query), quick tier uses 1x1')
+ASSUMPTIONS = ['the concrete GIL algorithm on concrete views is the oracle for the variant overload (its own correctness is C04/C09)',
+               'interleaved and planar rgb8 views are compatible with each other, gray8 with neither (as documented: same colour space and channel type)',
+               'buffers are exact-size heap objects: any access outside them is a failed proof obligation']
 XF = dict(flipud=1, fliplr=2, transposed=3, rot90cw=4, rot90ccw=5, rot180=6, subimage=7, subimage_pt=8, subsampled=9, subsampled_pt=10, nth_channel=11, color_converted=12, color_converted_cc=13)
 ALTN = ['gray8', 'rgb8', 'rgb8p']
+ALG = dict(copy=1, convert=2, convert_cc=3)
+FORM = ['vv', 'vc', 'cv']
+VAL = dict(gray8='gil::gray8_pixel_t', rgb8='gil::rgb8_pixel_t', bgr8='gil::bgr8_pixel_t')
+OPS = dict(observe=0, copy_ctor=1, copy_assign=2, assign_image=3, equality=4, recreate=5, recreate_pt=6, view_copy=7, view_assign=8, view_equality=9, view_assign_view=10,
+           assign_other_list=11, view_assign_other_list=12)
+NEEDS_B = ('copy_assign', 'assign_image', 'equality', 'view_copy', 'view_assign', 'view_equality', 'view_assign_view', 'assign_other_list', 'view_assign_other_list')
+DYN = 'C14/dyn.cpp'
 def queries(tier, seed):
     qs = []
+    Q_, T_ = 'quick', 'thorough'
+    def uw(w, h): return max(w, h) + 3
+    dims_all = [(3, 2), (1, 1), (0, 2), (1, 3), (2, 3), (2, 0)]
+    # ---- observers: dimensions / width / height / num_channels / size of the variant == of the held view
     for a in range(3):
-        for (w, h) in [(3, 2), (0, 0), (1, 3)]:
-            qs.append(Q('obs/%s/%dx%d' % (ALTN[a], w, h), 'C14/dyn.cpp', 'h_observers', defs=dict(C14_ALT=a), params=[w, h], unwind=6, rt_unwind=16, tier='quick', timeout=120))
+        for (w, h) in dims_all:
+            qs.append(Q('obs/%s/%dx%d' % (ALTN[a], w, h), DYN, 'h_observers', defs=dict(C14_ALT=a), params=[w, h], unwind=uw(w, h), rt_unwind=24,
+                        tier=Q_ if (w, h) in ((3, 2), (0, 2)) else T_, timeout=120))
+    # ---- view transformations: result variant holds the corresponding alternative == the concrete transformation's result
+    for a in range(3):
         for xf, code in XF.items():
-            for (w, h) in [(3, 2)]:
-                qs.append(Q('xf/%s/%s/%dx%d' % (xf, ALTN[a], w, h), 'C14/dyn.cpp', 'h_xf', defs=dict(C14_ALT=a, C14_XF=code), params=[w, h], unwind=6, rt_unwind=16, tier='quick', timeout=120))
-    ALG = dict(copy=1, convert=2, convert_cc=3)
-    FORM = ['vv', 'vc', 'cv']
+            for (w, h) in dims_all:
+                quick = (w, h) == (3, 2) or ((w, h) == (1, 3) and xf in ('rot90cw', 'subsampled') and a == 2) or ((w, h) == (0, 2) and xf == 'rot180' and a == 1)
+                defs = dict(C14_ALT=a, C14_XF=code)
+                qs.append(Q('xf/%s/%s/%dx%d' % (xf, ALTN[a], w, h), DYN, 'h_xf', defs=defs, params=[w, h], unwind=uw(w, h), rt_unwind=24, tier=Q_ if quick else T_, timeout=150))
+        # default colour conversion to gray8 (rgb -> gray luminance on both sides of the comparison: ~30 s) and user converter to gray8
+        for xf in ('color_converted', 'color_converted_cc'):
+            for (w, h) in [(3, 2), (1, 1)]:
+                qs.append(Q('xf/%s_to_gray8/%s/%dx%d' % (xf, ALTN[a], w, h), DYN, 'h_xf', defs=dict(C14_ALT=a, C14_XF=XF[xf], C14_CCDST='gil::gray8_pixel_t'), params=[w, h],
+                            unwind=uw(w, h), rt_unwind=24, tier=Q_ if (xf == 'color_converted_cc' and (w, h) == (3, 2)) or (xf == 'color_converted' and (w, h) == (1, 1) and a == 1) else T_, timeout=300))
+    # ---- binary algorithms: ordered pair of alternatives x overload form
     for a in range(3):
         for b in range(3):
+            compat = (a == b) or (a != 0 and b != 0)
             for alg, code in ALG.items():
                 for f in range(3):
-                    for (w, h) in [(3, 2)]:
-                        qs.append(Q('%s/%s-%s/%s/%dx%d' % (alg, ALTN[a], ALTN[b], FORM[f], w, h), 'C14/dyn.cpp', 'h_alg2', defs=dict(C14_ALT=a, C14_ALTB=b, C14_ALG=code, C14_FORM=f), params=[w, h], unwind=6, rt_unwind=24, tier='quick', timeout=120))
+                    for (w, h) in dims_all:
+                        heavy = alg == 'convert' and a != 0 and b == 0      # default rgb -> gray conversion, twice
+                        if alg == 'copy': quick = (w, h) == (3, 2) or ((w, h) in ((1, 1), (0, 2)) and f == 0 and (a, b) in ((1, 2), (0, 1)))
+                        else: quick = ((w, h) == (3, 2) and not heavy and (f == 0 or (a, b, f) in ((0, 1, 1), (1, 2, 2)))) or (heavy and (w, h) == (1, 1) and f == 0 and a == 1)
+                        qs.append(Q('%s/%s-%s/%s/%dx%d' % (alg, ALTN[a], ALTN[b], FORM[f], w, h), DYN, 'h_alg2', defs=dict(C14_ALT=a, C14_ALTB=b, C14_ALG=code, C14_FORM=f), params=[w, h],
+                                    unwind=uw(w, h), rt_unwind=24, tier=Q_ if quick else T_, timeout=300))
+            # equal_pixels: no pixel differs / the pixel at a concrete position differs by a symbolic amount
             for f in range(3):
-                for (w, h, ex, ey) in [(3, 2, -1, -1), (3, 2, 2, 1)]:
-                    qs.append(Q('equal/%s-%s/%s/%dx%d_d%s' % (ALTN[a], ALTN[b], FORM[f], w, h, 'none' if ex < 0 else '%d%d' % (ex, ey)), 'C14/dyn.cpp', 'h_equal', defs=dict(C14_ALT=a, C14_ALTB=b, C14_FORM=f), params=[w, h, ex, ey], unwind=6, rt_unwind=24, tier='quick', timeout=120))
-    VAL = dict(gray8='gil::gray8_pixel_t', rgb8='gil::rgb8_pixel_t', bgr8='gil::bgr8_pixel_t')
+                for (w, h) in [(3, 2), (2, 3), (1, 1), (0, 2)]:
+                    diffs = [(-1, -1)] + ([(x, y) for y in range(h) for x in range(w)] if compat else [])
+                    for (ex, ey) in diffs:
+                        quick = (w, h) == (3, 2) and (ex, ey) in ((-1, -1), (2, 1)) and ((f == 0 and (compat or a < b)) or ((a, b, f) in ((0, 0, 1), (1, 2, 2), (2, 1, 1), (0, 1, 2)) and (ex, ey) != (-1, -1)) or (a, b, f) == (1, 0, 1))
+                        qs.append(Q('equal/%s-%s/%s/%dx%d_d%s' % (ALTN[a], ALTN[b], FORM[f], w, h, 'none' if ex < 0 else '%d%d' % (ex, ey)), DYN, 'h_equal',
+                                    defs=dict(C14_ALT=a, C14_ALTB=b, C14_FORM=f), params=[w, h, ex, ey], unwind=uw(w, h), rt_unwind=24, tier=Q_ if quick else T_, timeout=300))
+            # resample_pixels on variants: nearest neighbour, integer translation
+            for f in range(3):
+                for (tx, ty) in [(0, 0), (1, 0), (-1, 1)]:
+                    quick = (a, b, f, (tx, ty)) in ((1, 2, 0, (1, 0)), (0, 0, 1, (-1, 1)), (2, 1, 2, (0, 0)), (0, 1, 0, (0, 0)), (2, 0, 1, (1, 0)))
+                    qs.append(Q('resample/%s-%s/%s/3x2_t%d_%d' % (ALTN[a], ALTN[b], FORM[f], tx, ty), DYN, 'h_alg2', defs=dict(C14_ALT=a, C14_ALTB=b, C14_ALG=7, C14_FORM=f, C14_WITH_RESAMPLE=1),
+                                params=[3, 2, tx, ty], unwind=6, rt_unwind=24, tier=Q_ if quick else T_, timeout=300))
+    # ---- unary algorithms on the variant: fill_pixels (compatible / incompatible value), for_each_pixel
     for b in range(3):
-        for vn, vt in VAL.items():
-            qs.append(Q('fill/%s/val_%s/3x2' % (ALTN[b], vn), 'C14/dyn.cpp', 'h_alg1', defs=dict(C14_ALTB=b, C14_ALG=5, C14_VAL=vt), params=[3, 2], unwind=6, rt_unwind=24, tier='quick', timeout=120))
-        qs.append(Q('foreach/%s/3x2' % ALTN[b], 'C14/dyn.cpp', 'h_alg1', defs=dict(C14_ALTB=b, C14_ALG=6), params=[3, 2], unwind=6, rt_unwind=24, tier='quick', timeout=120))
-    return qs
+        for (w, h) in dims_all:
+            for vn, vt in VAL.items():
+                qs.append(Q('fill/%s/val_%s/%dx%d' % (ALTN[b], vn, w, h), DYN, 'h_alg1', defs=dict(C14_ALTB=b, C14_ALG=5, C14_VAL=vt), params=[w, h], unwind=uw(w, h), rt_unwind=24,
+                            tier=Q_ if (w, h) == (3, 2) else T_, timeout=150))
+            qs.append(Q('foreach/%s/%dx%d' % (ALTN[b], w, h), DYN, 'h_alg1', defs=dict(C14_ALTB=b, C14_ALG=6), params=[w, h], unwind=uw(w, h), rt_unwind=24,
+                        tier=Q_ if (w, h) in ((3, 2), (0, 2)) else T_, timeout=150))
+    # ---- any_image / any_image_view value semantics (a: alternative under test, b: previous contents of the assignment target / second operand)
+    for std in (0, 1):
+        for a in range(3):
+            for b in range(3):
+                for opn, op in OPS.items():
+                    if opn not in NEEDS_B and a != b: continue
+                    shapes = [((3, 2), (2, 3))] if std else [((3, 2), (2, 3)), ((1, 1), (3, 1)), ((2, 2), (0, 0)), ((0, 0), (2, 1))]
+                    for (w, h), (w2, h2) in shapes:
+                        variants = [('', w2, h2, 2, 1)]
+                        if opn == 'equality':   # same dims: pixel (2,1) / (0,0) / none differs; different dims
+                            variants = [('_d21', w, h, 2, 1), ('_d00', w, h, 0, 0), ('_dnone', w, h, -1, -1), ('_otherdims', w2, h2, -1, -1)]
+                        for tag, pw2, ph2, ex, ey in variants:
+                            for al in ((0, 8) if opn.startswith('recreate') and not std else (0,)):
+                                quick = not std and (w, h) == (3, 2) and al == 0 and tag in ('', '_d21', '_otherdims') and (
+                                    a == b or (b == (a + 1) % 3 and opn in ('copy_assign', 'equality', 'view_assign', 'view_equality') and tag != '_otherdims'))
+                                if opn in ('assign_other_list', 'view_assign_other_list', 'view_assign_view', 'recreate_pt', 'view_copy') and a != 1: quick = False
+                                if opn == 'assign_image' and a == 1: quick = False
+                                quick = quick or (not std and (w, h) == (0, 0) and a == b and (opn, a) in (('copy_ctor', 0), ('recreate', 1), ('observe', 2)))
+                                name = 'img%s/%s%s/%s-%s/%dx%d%s' % ('_std' if std else '', opn, tag, ALTN[a], ALTN[b], w, h, '_al%d' % al if al else '')
+                                qs.append(Q(name, 'C14/img.cpp', 'h_img', defs=dict(C14_ALT=a, C14_ALTB=b, C14_STDALLOC=std), params=[op, w, h, pw2, ph2, ex, ey, al],
+                                            unwind=8, rt_unwind=24, tier=Q_ if quick else T_, timeout=300))
+    names = set(); out = []
+    for q in qs:
+        if q.name in names: continue
+        names.add(q.name); out.append(q)
+    return out
